@@ -7,3 +7,5 @@ FUNCTIONS = ['uxarray.grid.geometry._pad_closed_face_nodes',
 STANDINS = ["geometry_export"]
 ASSUMPTIONS = []
 EXPLANATION = ""
+LEVEL_TEXT = '_pad_closed_face_nodes proved (loop invariant): row = corners then copies of the first corner; to_linecollection / to_polycollection proved to depend only on their arguments from every cache state (polycollection returns a private deep copy); vertices, antimeridian handling, data alignment bounded'
+LEVEL_NOTE = 'matplotlib/shapely/cartopy/antimeridian builders as uninterpreted functions; to_geodataframe cache not under contract (8 known findings)'
